@@ -591,13 +591,21 @@ def history_pass(ctx, d, rng):
     A2["order"] = ["n_" + n for n in A["order"]][::-1] + ["extra cell"]
     A2["cells"] = {"n_" + n: {"pixels": c["pixels"][::2], "extra": copy.deepcopy(c["extra"])} for n, c in A["cells"].items()}
     A2["cells"]["extra cell"] = {"pixels": [], "extra": copy.deepcopy(next(iter(A["cells"].values()))["extra"])}
+    def check_scool(tag, case):
+        exp = {"is_scool_file": True, "list_scool_cells": sorted(["/cells/" + n for n in case["order"]], key=natkey),
+               "is_cooler": False, "is_multires_file": False,
+               "list_coolers": sorted(["/cells/" + n for n in case["order"]], key=natkey)}
+        check_probe(tag, exp)
     check_probe("before the file exists", ABSENT)
     steps.append((A, run_impl(d, "H", A)))
+    check_scool("first single-cell file", A)
     steps.append((B, run_impl(d, "H", B)))                       # overwritten: other cells, other number of bins
+    check_scool("overwritten by other cells and another bin table", B)
     cooler.create_cooler(fn, pd.DataFrame(A["bins"], columns=["chrom", "start", "end"]),
                          pd.DataFrame({"bin1_id": [0], "bin2_id": [0], "count": [1]}))
     check_probe("overwritten by a plain cooler", PLAIN)
     steps.append((A2, run_impl(d, "H", A2)))                     # a single-cell file again, same nbins as A, other cells
+    check_scool("single-cell file again after the plain cooler", A2)
     steps.append((A, run_impl(d, "H", A)))                       # and the first content once more
     # the same input objects for two consecutive calls (same path, then another path)
     given = frames(A2)
@@ -673,6 +681,17 @@ def run(ctx):
 def replay(ctx, case):
     import warnings
     warnings.filterwarnings("ignore")
+    if "history" in case:
+        import random
+        d = str(ctx.tmp / "replay")
+        os.makedirs(d, exist_ok=True)
+        n0 = len(ctx.failures)
+        bad = []
+        for c_, _, r_ in history_pass(ctx, d, random.Random(1)):
+            bad += oracle(c_, r_)
+        for b in bad + [f[1] for f in ctx.failures[n0:]]:
+            print("  ", str(b)[:300])
+        return not bad and len(ctx.failures) == n0
     case = dict(case)
     case["bins"] = [tuple(b) for b in case["bins"]]
     for c in case["cells"].values():
